@@ -156,7 +156,7 @@ func value(v interface{}, depth int) any {
 		return T{"str", bytesSeq([]byte(x))}
 	case *decimal.Big:
 		if x == nil {
-			return T{"null", true}
+			return T{"other", "nilbig"} // a typed nil number: its own kind, nothing about it is pinned
 		}
 		return numOf(Dec(x))
 	case time.Time:
